@@ -93,7 +93,16 @@ class Out:
             return {'kind': 'unknown', 'out_line': out_line}
         if c.origin:
             return {'kind': 'code', 'file': c.origin[0], 'line': c.origin[1] + (out_line - c.out_line), 'fn': c.fn}
-        return {'kind': 'contract', 'label': c.label, 'fn': c.fn}
+        label = c.label
+        if label is None:
+            lines = c.text.split('\n')
+            k = out_line - c.out_line
+            if 0 <= k < len(lines):
+                import re as _re
+                m = _re.search(r'//\s*\[label:\s*([^\]]+)\]', lines[k])
+                if m:
+                    label = '#' + m.group(1).strip()
+        return {'kind': 'contract', 'label': label, 'fn': c.fn}
 
 
 def sha(text: str) -> str:
